@@ -612,8 +612,10 @@ class Interp(object):
                             break
                 if decided:
                     if t > self.deadline():
-                        # the retried run starts after the execution deadline: it times out at once
-                        pass
+                        # a retry delay never extends past the execution deadline: the retried run starts there and,
+                        # the deadline having been reached, times out at once
+                        t = self.deadline()
+                        self.retry_cut_at_deadline = True
                     continue
                 if not self.unrecoverable(e):
                     for ctr in (st.get("Catch") or []):
@@ -784,7 +786,8 @@ class Interp(object):
             # immediate reply races with the timer
             e = StateError(("States.ExecutionTimeout",), "Execution ran for longer than the specified timeout value")
             e.t = t
-            if t == self.deadline() or (o["kind"] != "noreply" and o["delay"] == 0):
+            if (t == self.deadline() and not getattr(self, "retry_cut_at_deadline", False)) or \
+                    (o["kind"] != "noreply" and o["delay"] == 0):
                 self.flags.deadline_tie = True
             raise e
         t_task_to = t + ts
